@@ -17,13 +17,24 @@ Reading of "burst … of the CRC-protected region or of the CRC field": the alte
 of the two regions.  A run of ≤ 32 altered bits straddling byte 7|8 is not a burst of the code (the CRC
 field sits in front of the data it protects) and is not claimed.
 
-What is NOT provable, and why (see `C06_size_flip_accepted` at the end): when the alteration hits the
-`payload_size_bytes` field the validators compute the CRC over a different extent, and for suitably
-chosen payload bytes a one-bit alteration of that field yields another CRC-valid (shorter) message.
-The rejection theorems therefore carry the hypothesis that the announced payload size is unchanged;
-alterations of the size field are exercised on the implementation by the harness (a test).
+What is proved: (a) table algorithm = bit-serial CRC-32 for every buffer and initial value; (b) incremental
+use at every split point, Python's two-step CRC = C++ `CalculateCRC(message)`; (c) every in-range
+`encode_message` call yields a message with the right fields that all validators accept, failing calls
+leave the sequence number alone, produced messages are numbered consecutively modulo 2^32 over any
+sequence of calls; (d) affine law, every burst ≤ 32 bits and every alteration of the CRC field is rejected
+by `validate_crc`, `IsValid`, the framer's comparison and the Python stream decoder; (e) the polynomial
+has period 2^32 - 1, hence two altered bits at ANY distance (both in the protected region, both in the CRC
+field, or one in each) are rejected.
+
+What does NOT hold, and why (`C06_size_field_flip_accepted`, `C06_burst_rejected_full_fails`): when the
+alteration hits the `payload_size_bytes` field the validators compute the CRC over a different extent, and
+for suitably chosen payload bytes a one-bit alteration of that field yields another CRC-valid (shorter)
+message.  The rejection theorems for the protected region therefore carry the hypothesis that the
+announced payload size is unchanged; alterations of the size field are exercised on the implementation
+by the harness (a test; the crafted counterexample is listed in KNOWN_FINDINGS.txt).
 -/
 import FeVerif.Proofs.Integrity
+import FeVerif.Proofs.CrcTwoBit
 import FeVerif.Props.C04
 
 namespace FeVerif
@@ -214,12 +225,12 @@ theorem C06_validators_agree (msg : Bytes) (h : ExactMsg msg) :
     cxxFramerCrcOk msg = decide (CrcMatches msg) :=
   ⟨pyUnpackValidate_exact h, pyCrcOk_exact h, cxxIsValid_exact h, cxxFramerCrcOk_exact h⟩
 
-/-- Corruption of the protected region: a message accepted by the CRC comparison, altered by a burst
-(in particular any single bit, or two bits fewer than 32 positions apart) inside bytes `[8, end)` that
-leaves the announced payload size intact, is rejected by `validate_crc`, by `IsValid` and by the
-framer's CRC comparison. -/
-theorem C06_burst_rejected (msg e : Bytes) (hex : ExactMsg msg) (hm : CrcMatches msg)
-    (he : e.length = msg.length - 8) (hb : IsBurst (bitsOf e))
+/-- Corruption of the protected region, general form: a message accepted by the CRC comparison,
+altered inside bytes `[8, end)` by any pattern with a non-zero linear remainder that leaves the
+announced payload size intact, is rejected by `unpack(validate_crc=True)` / `validate_crc`, by `IsValid`
+and by the framer's CRC comparison. -/
+theorem C06_error_rejected (msg e : Bytes) (hex : ExactMsg msg) (hm : CrcMatches msg)
+    (he : e.length = msg.length - 8) (hl : crcLin e ≠ 0#32)
     (hsz : u32le (corruptProtected msg e) 16 = u32le msg 16) :
     pyUnpackValidate (corruptProtected msg e) = some false ∧
     pyCrcOk (corruptProtected msg e) = false ∧ cxxIsValid (corruptProtected msg e) = some false ∧
@@ -227,9 +238,19 @@ theorem C06_burst_rejected (msg e : Bytes) (hex : ExactMsg msg) (hm : CrcMatches
   have h8 : 8 ≤ msg.length := by unfold ExactMsg HDR at hex; omega
   have hex' : ExactMsg (corruptProtected msg e) := by
     unfold ExactMsg; rw [corruptProtected_length h8 he, hsz]; exact hex
-  have hn := corruptProtected_not_matches h8 he hm (C06_burst_detected e hb)
+  have hn := corruptProtected_not_matches h8 he hm hl
   rw [pyUnpackValidate_exact hex', pyCrcOk_exact hex', cxxIsValid_exact hex', cxxFramerCrcOk_exact hex']
   simp [hn]
+
+/-- Bursts: any non-zero alteration confined to at most 32 consecutive bit positions of the protected
+region (in particular any single bit, or two bits fewer than 32 positions apart). -/
+theorem C06_burst_rejected (msg e : Bytes) (hex : ExactMsg msg) (hm : CrcMatches msg)
+    (he : e.length = msg.length - 8) (hb : IsBurst (bitsOf e))
+    (hsz : u32le (corruptProtected msg e) 16 = u32le msg 16) :
+    pyUnpackValidate (corruptProtected msg e) = some false ∧
+    pyCrcOk (corruptProtected msg e) = false ∧ cxxIsValid (corruptProtected msg e) = some false ∧
+    cxxFramerCrcOk (corruptProtected msg e) = false :=
+  C06_error_rejected msg e hex hm he (C06_burst_detected e hb) hsz
 
 /-- Corruption of the CRC field: replacing the stored CRC by any other four bytes (any bit pattern
 altered within bytes `[4, 8)`) is rejected by all three validators. -/
@@ -271,6 +292,68 @@ theorem C06_decoder_rejects_corrupt (m : Nat) (chunks : List Bytes) (pre bad pos
   have hnb : n = bad.length := by rw [hnn]; exact hex.symm
   rw [hnb, List.take_left] at hcrc
   exact hn hcrc
+
+/-! ## (e) Two flipped bits at any distance -/
+
+/-- The zero-feed step of the register returns the polynomial's bit pattern to itself after exactly
+2^32 - 1 steps and not before (the CRC-32 polynomial is primitive).  Kernel-evaluated 32x32 bit-matrix
+powers by repeated squaring for the exponents 2^32 - 1 and (2^32 - 1)/q, q ∈ {3, 5, 17, 257, 65537}. -/
+theorem C06_polynomial_period : Function.minimalPeriod crcShift crcPoly = 4294967295 :=
+  minimalPeriod_crcPoly
+
+/-- Two altered bits any distance `d` apart, `0 < d < 2^32 - 1` (any two bits of a buffer shorter than
+512 MiB), have a non-zero linear remainder. -/
+theorem C06_two_bit_detected (e : Bytes) (h : TwoBits (bitsOf e)) : crcLin e ≠ 0#32 := by
+  rw [crcLin_eq_bits]; exact crcBits_twoBits_ne_zero h
+
+/-- Both altered bits in the protected region (size field untouched): rejected by every validator. -/
+theorem C06_two_bit_rejected (msg e : Bytes) (hex : ExactMsg msg) (hm : CrcMatches msg)
+    (he : e.length = msg.length - 8) (hb : TwoBits (bitsOf e))
+    (hsz : u32le (corruptProtected msg e) 16 = u32le msg 16) :
+    pyUnpackValidate (corruptProtected msg e) = some false ∧
+    pyCrcOk (corruptProtected msg e) = false ∧ cxxIsValid (corruptProtected msg e) = some false ∧
+    cxxFramerCrcOk (corruptProtected msg e) = false :=
+  C06_error_rejected msg e hex hm he (C06_two_bit_detected e hb) hsz
+
+/-- One altered bit in the stored CRC (bit `m` of the 32-bit field) and one in the protected region (bit
+`k` of byte `8 + i`, size field untouched) of a message within the validators' size limit: rejected by
+every validator.  (Both altered bits inside the CRC field is `C06_crc_field_flip_detected`.) -/
+theorem C06_two_bit_cross_rejected (msg f : Bytes) (i k m : Nat) (hex : ExactMsg msg) (hm : CrcMatches msg)
+    (hi : i < msg.length - 8) (hk : k < 8) (hm32 : m < 32) (hf : f.length = 4)
+    (hflip : BitVec.ofNat 32 (u32le f 0) = BitVec.ofNat 32 (u32le msg 4) ^^^ (1#32 <<< m))
+    (hmax : u32le msg 16 ≤ MAX_EXPECTED)
+    (hsz : u32le (corruptProtected msg (flipPattern (msg.length - 8) i k)) 16 = u32le msg 16) :
+    pyUnpackValidate (replaceCrcField (corruptProtected msg (flipPattern (msg.length - 8) i k)) f) = some false ∧
+    cxxIsValid (replaceCrcField (corruptProtected msg (flipPattern (msg.length - 8) i k)) f) = some false ∧
+    cxxFramerCrcOk (replaceCrcField (corruptProtected msg (flipPattern (msg.length - 8) i k)) f) = false := by
+  have hlen : msg.length = HDR + u32le msg 16 := hex
+  have h8 : 8 ≤ msg.length := by unfold HDR at hlen; omega
+  have he : (flipPattern (msg.length - 8) i k).length = msg.length - 8 := flipPattern_length _ _ _
+  have hcl := corruptProtected_length h8 he
+  have hex' : ExactMsg (replaceCrcField (corruptProtected msg (flipPattern (msg.length - 8) i k)) f) := by
+    unfold ExactMsg
+    rw [replaceCrcField_length (by omega) hf, replaceCrcField_size (by unfold HDR at hlen; omega) hf, hcl, hsz]
+    exact hex
+  have hn : ¬ CrcMatches (replaceCrcField (corruptProtected msg (flipPattern (msg.length - 8) i k)) f) := by
+    unfold CrcMatches
+    rw [replaceCrcField_drop8 (by omega) hf, replaceCrcField_crcField (by omega) hf,
+      corruptProtected_drop8 h8, crc32_xor _ _ _ (by simp [he]), crcLin_flipPattern _ i k hi hk]
+    intro h
+    have hC : BitVec.ofNat 32 (u32le msg 4) = crc32 0#32 (msg.drop 8) := by
+      rw [← hm, BitVec.ofNat_toNat, BitVec.setWidth_eq]
+    have h2 : BitVec.ofNat 32 (u32le f 0) =
+        crc32 0#32 (msg.drop 8) ^^^ crcIter (7 - k + 8 * (msg.length - 8 - (i + 1))) crcPoly := by
+      rw [← h, BitVec.ofNat_toNat, BitVec.setWidth_eq]
+    rw [hflip, hC] at h2
+    have h3 : crcIter (7 - k + 8 * (msg.length - 8 - (i + 1))) crcPoly = 1#32 <<< m := by
+      have := congrArg (fun x => crc32 0#32 (msg.drop 8) ^^^ x) h2
+      simp only [← BitVec.xor_assoc, BitVec.xor_self, BitVec.zero_xor] at this
+      exact this.symm
+    refine crcIter_poly_ne_bit _ m hm32 ?_ h3
+    unfold HDR MAX_EXPECTED at *
+    omega
+  rw [pyUnpackValidate_exact hex', cxxIsValid_exact hex', cxxFramerCrcOk_exact hex']
+  simp [hn]
 
 /-! ## The size field: what does not hold -/
 
@@ -315,5 +398,9 @@ example : IsBurst (bitsOf (flipPattern 3 1 6)) := C06_single_bit_is_burst 3 1 6 
 /-- Two flipped bits 31 positions apart (bit 1 of byte 0 and bit 0 of byte 4) form a burst. -/
 example : IsBurst (bitsOf [0x02, 0, 0, 0, 0x01]) :=
   ⟨1, true :: (List.replicate 30 false ++ [true]), 7, by decide, by decide, by decide⟩
+
+/-- Two flipped bits 71 positions apart (bit 0 of byte 0 and bit 7 of byte 8). -/
+example : TwoBits (bitsOf [0x01, 0, 0, 0, 0, 0, 0, 0, 0x80]) :=
+  ⟨0, 71, 0, by decide, by decide, by decide⟩
 
 end FeVerif
